@@ -41,5 +41,6 @@ C17 race-cachedLength-shardCache c17/data-race@hamt. 832597c
 C05 node-reifier-double-wrap-overfetch c05/file/over-fetch 66de0e2
 C20 node-reifier-preload-noop c20/block-set-mismatch/ c4568c0
 C12 unmeasurable-child-skipped-as-empty c12/file/eof-instead-of-error d112abd
+C12 load-failing-with-io-eof-truncates-read c12/file/eof-instead-of-error cc90727
 TABLE
 exit $fail
